@@ -435,7 +435,7 @@ class Runner:
                     not l.startswith("[") and "STAT" not in l and
                     not l.startswith("---")]
             out = keep[-4:]
-        return dict(kind=kind, where=where, text=" | ".join(out)[-900:])
+        return dict(kind=kind, where=where, text=" | ".join(out)[-1500:])
 
     def stacks(self, s):
         """Stalled session: stacks of all its ranks via gdb, reduced to the
@@ -481,7 +481,7 @@ class Runner:
                     # thread 1 is the compute thread
                     if th == 1 and not where:
                         where = frames[th][0].split(" at ")[0]
-        return where, " || ".join(parts)[:1200]
+        return where, " || ".join(parts)[:4000]
 
     def cleanup(self, s):
         for p in self.paths(s):
@@ -743,8 +743,9 @@ def c18_plan(tier):
                 for pol, out in (("oec", "csr"), ("iec", "csr"),
                                  ("cvc", "csr"), ("cvc", "csc"),
                                  ("hovc", "csr"), ("ginger-i", "csr")):
-                    add((h, 2 if h == 2 else 1,
-                         mk(g, pol, out, capbits=5, forced="diag")))
+                    t = 2 if (h == 2 and g.name == "cycle4" and
+                              pol in ("oec", "cvc")) else 1
+                    add((h, t, mk(g, pol, out, capbits=5, forced="diag")))
         # all encodings on all location pairs, bitsetData chosen automatically
         add((2, 1, mk(fan_graph(), "oec", "csr", capbits=4)))
         add((2, 1, mk(fan_graph(), "iec", "csr", capbits=4)))
@@ -764,8 +765,9 @@ def c18_plan(tier):
             for g in struct + tiny:
                 for pol in pols:
                     for out in ("csr", "csc"):
-                        add((h, 2 if h == 2 else 1,
-                             mk(g, pol, out, capbits=6)))
+                        t = 2 if (h == 2 and g.name in ("cycle4", "edge2")
+                                  and out == "csr") else 1
+                        add((h, t, mk(g, pol, out, capbits=6)))
                 sg = g.symmetrised()
                 for pol in SYM_CLASSES:
                     add((h, 1, mk(sg, pol, "csr", sym=1, capbits=6)))
@@ -813,6 +815,46 @@ def build_harness(prop):
     return exe
 
 
+def make_overlay(diff):
+    """Scratch include directory holding the patched copies of the headers a
+    mutant touches (only files under some <lib>/include/ can be overlaid)."""
+    root = os.path.join(build.TMP, "e4-mutant-%d" % os.getpid())
+    shutil.rmtree(root, ignore_errors=True)
+    src, ov = os.path.join(root, "src"), os.path.join(root, "include")
+    os.makedirs(src)
+    os.makedirs(ov)
+    files = re.findall(r"^\+\+\+ b/(\S+)", open(diff).read(), re.M)
+    for f in files:
+        if "/include/" not in f:
+            raise SystemExit("mutant touches %s: not a header under "
+                             "<lib>/include/, use tools/try_seed.sh" % f)
+        os.makedirs(os.path.dirname(os.path.join(src, f)), exist_ok=True)
+        shutil.copy(os.path.join(build.REPO, f), os.path.join(src, f))
+    r = subprocess.run(["patch", "-p1", "-s", "-d", src, "-i",
+                        os.path.abspath(diff)])
+    if r.returncode != 0:
+        raise SystemExit("mutant does not apply")
+    for f in files:
+        rel = f.split("/include/", 1)[1]
+        os.makedirs(os.path.dirname(os.path.join(ov, rel)), exist_ok=True)
+        txt = open(os.path.join(src, f)).read()
+        # sibling includes ("BasePolicies.h") must keep resolving
+        d = os.path.dirname(rel)
+        orig_dir = os.path.dirname(os.path.join(build.REPO, f))
+
+        def fix(m):
+            name = m.group(1)
+            if "/" not in name and os.path.exists(os.path.join(orig_dir,
+                                                               name)):
+                return '#include "%s/%s"' % (d, name)
+            return m.group(0)
+        txt = re.sub(r'#include "([^"]+)"', fix, txt)
+        open(os.path.join(ov, rel), "w").write(txt)
+    log("# mutant %s: patched copies of %s in %s" % (
+        os.path.basename(diff), ", ".join(files), ov))
+    return ov
+
+
 def chunk_sessions(plan, reps, per_session, sid0=0):
     """Group (hosts, threads, case) by (hosts, threads); chunks of
     per_session cases; every chunk `reps` times."""
@@ -848,9 +890,17 @@ def main():
                     help="debug: only the first N cases of the plan")
     ap.add_argument("--grep", default="", help="debug: case name substring")
     ap.add_argument("--keep", action="store_true")
+    ap.add_argument("--mutant", default="",
+                    help="demonstrate detection: apply this unified diff "
+                         "(paths relative to the repo root, header-only "
+                         "components) to a scratch copy that is searched "
+                         "before the tree's include dirs; /repo is not "
+                         "touched.  Exit 1 (finding) is the expected outcome")
     a = ap.parse_args()
     if a.replay:
         return replay(a.replay)
+    if a.mutant:
+        os.environ["VERIF_E4_OVERLAY"] = make_overlay(a.mutant)
     prop, tier = a.prop, a.tier
     deadline_at = T0 + a.deadline
     exe = build_harness(prop)
@@ -1030,9 +1080,8 @@ def run_check(a, prop, tier, exe, workdir, deadline_at):
                 key = "%s:%s@%s" % (pre, kind, where)
             else:
                 key = "%s:%s" % (comp_of(c), kind)
-            msg = ("%s of the %d-host session while case '%s' was running "
-                   "(reproduced when that case is run alone); %s" % (
-                       kind, hosts, case_name(c, hosts), diag["text"]))
+            msg = ("%s of the %d-host session while case '%s' was running; "
+                   "%s" % (kind, hosts, case_name(c, hosts), diag["text"]))
             st = abn.setdefault(key, dict(confirmed=False, attempts=0,
                                           inflight=False, waiting=[]))
             if len(st["waiting"]) + len(failures.get(key, [])) < 3:
@@ -1071,7 +1120,7 @@ def run_check(a, prop, tier, exe, workdir, deadline_at):
             unconfirmed.append(dict(
                 key=key, case=case_name(by_cid[cid][2], by_cid[cid][0]),
                 msg="not reproduced when the case was run alone (%d "
-                    "attempts); %s" % (st["attempts"], msg[-400:])))
+                    "attempts); %s" % (st["attempts"], msg[:4500])))
 
     # ---- aggregate ---------------------------------------------------------
     os.makedirs(REPLAY_DIR, exist_ok=True)
